@@ -149,7 +149,7 @@ class ColumnWriter:
         max_def, max_rep = cs["max_def"], cs["max_rep"]
         values = [v for r, d, v in slots if d == max_def]
         start = base_offset + len(out)
-        use_dict = cs.get("use_dict") and values
+        use_dict = cs.get("use_dict") and (values or cs.get("dict_when_empty"))
         dict_off = None
         encs = set()
         unc_total = 0
@@ -204,7 +204,7 @@ class ColumnWriter:
             dict_page = use_dict and (cs.get("dict_fallback_page") is None or pi < cs["dict_fallback_page"])
             if dict_page:
                 idx = [index_of[(v if not isinstance(v, float) else struct.pack("<d", v))] for v in pvals]
-                width = max(E.width_for(len(dictionary) - 1), cs.get("min_index_width", 0))
+                width = max(E.width_for(max(0, len(dictionary) - 1)), cs.get("min_index_width", 0))
                 body = _index_bytes(idx, width, cs.get("idx_plan", "bp"))
                 enc_id = cs.get("dict_encoding_id", 8)
             else:
